@@ -55,7 +55,13 @@ def job(j):
     for opt in j.get("opts", ("default",)):
         signal.alarm(int(j.get("timeout", 40)))
         try:
-            qf = qlassf(src, to_compile=True, bool_optimizer=optimizer(opt))
+            from qlasskit import _verif
+            events = []
+            _verif.set_sink(lambda ev, f: events.append((ev, f)))
+            try:
+                qf = qlassf(src, to_compile=True, bool_optimizer=optimizer(opt))
+            finally:
+                _verif.set_sink(None)
             if type(qf).__name__ == "UnboundQlassf":
                 out["status"] = "unbound"
                 return out
@@ -78,7 +84,9 @@ def job(j):
             c = {"def": d, "fns": NONE, "params": NONE, "argT": argT,
                  "inputs": [b for a in qf.args for b in a.bitvec], "rets": list(qf.returns.bitvec),
                  "exprs": ser.ser_exprs(qf.expressions), "gates": ser.ser_gates(qc.gates), "nq": int(qc.num_qubits),
-                 "inq": [int(x) for x in qf.input_qubits], "opt": opt}
+                 "inq": [int(x) for x in qf.input_qubits], "opt": opt, "qmap": ser.ser_qmap(qc),
+                 "ev": [{"k": "g", "v": f["anc"]} if ev == "qe.getfree" else {"k": "o", "v": f["order"]}
+                        for ev, f in events if ev in ("qe.getfree", "ic.operands")]}
             try:
                 c["outq"] = [int(x) for x in qf.output_qubits]
                 c["outq_exc"] = ""
@@ -122,7 +130,7 @@ def run(pid):
     rng = random.Random(seed())
     rep = Report("C05", "translation_validation")
     srcs = progs.corpus("C05", t, seed())
-    jobs = [{"src": s["src"], "origin": s["origin"], "opts": ("default", "fast") if t != "quick" else ("default",),
+    jobs = [{"src": s["src"], "origin": s["origin"], "opts": ("default", "fast"),
              "maxin": 8 if t == "quick" else 10} for s in srcs]
     results = run_jobs(job, jobs)
     cases, meta, st = [], {}, {}
@@ -134,8 +142,14 @@ def run(pid):
             meta[c["id"]] = (r, c.pop("opt"))
             cases.append(c)
     vlog("compiled", st, len(cases))
+    evs = {c["id"]: (c.pop("ev"), c.pop("qmap")) for c in cases}
     with Scratch("C05") as sc:
         verdicts, stats = tlc.run_cases("Trace_C05", cases, sc, timeout=2400, heap="4g")
+        # a wrong round trip is attributed to the known synthesis findings only through the refinement model
+        from .synth import synth_case, attribute
+        failing = [c for c in cases if verdicts[c["id"]][0] == "fail" and verdicts[c["id"]][1] == "decoded-value-differs"]
+        attr = attribute(sc, [synth_case(c["id"], c["inputs"], c["exprs"], c["rets"], True, evs[c["id"]][0], c["gates"], c["nq"],
+                                         evs[c["id"]][1]) for c in failing]) if failing else {}
     vst, vals, shapes, skips = {}, 0, {}, {}
     nontrivial = set()
     for c in cases:
@@ -151,8 +165,9 @@ def run(pid):
         elif v[0] == "skip":
             skips[v[1]] = skips.get(v[1], 0) + 1
         elif v[0] == "fail":
-            rep.fail({"src": r["src"], "opt": opt, "outq": c["outq"], "outq_exc": c["outq_exc"]}, v[1],
-                     f"row={v[2]} n={v[3]} opt={opt} {c['outq_exc']} src={r['src']!r}", src=r["src"], key=opt)
+            sv, trig = attr.get(c["id"], (None, ()))
+            rep.fail({"src": r["src"], "opt": opt, "outq": c["outq"], "outq_exc": c["outq_exc"], "model": sv}, v[1],
+                     f"row={v[2]} n={v[3]} opt={opt} {c['outq_exc']} model={sv} src={r['src']!r}", src=r["src"], key=opt, triggers=trig)
     cov = {"programs": len(cases), "disagreements_checked": vals,
            "samples": [{"src": meta[c["id"]][0]["src"], "verdict": verdicts[c["id"]]} for c in cases[:: max(1, len(cases) // 4)][:4]],
            "evaluations": len(cases), "distinct_nontrivial": len(nontrivial),
